@@ -603,6 +603,15 @@ func replayOnce(rs *RunSpec, trace []string) (sigs []string, log []string, err e
 			return nil, nil, fmt.Errorf("step %d: action %q not enabled", i, name)
 		}
 		post, res := Exec(e.rig, e.Sc, s, *act)
+		if e.rig.Dirty() {
+			// this process carries keeper memory: compare each of its steps with a process restarted from the same stores
+			postF, resF := Exec(NewRig(e.Sc.Rig), e.Sc, s, *act)
+			if post.StoreHash() != postF.StoreHash() || res.Outcome() != resF.Outcome() {
+				sg := viol("C20", "independent-of-process", act.Kind, "keeper-memory", "").Sig
+				sigs = append(sigs, sg)
+				log = append(log, "    !! "+sg)
+			}
+		}
 		if e.DetCheck {
 			post2, res2 := Exec(e.rig2, e.Sc, s, *act)
 			if post.StoreHash() != post2.StoreHash() || res.Outcome() != res2.Outcome() {
